@@ -1188,7 +1188,7 @@ pub fn shrink(s: &ObjScenario) -> Vec<ObjScenario> {
     let mut width = n / 2;
     while width >= 1 {
         let mut i = 0;
-        while i + width <= n {
+        while i + width <= n && out.len() < 300 {
             let (a, b) = (spans[i].0, spans[i + width - 1].1);
             let mut t = s.text[..a].to_vec();
             t.extend_from_slice(&s.text[b..]);
@@ -1202,6 +1202,9 @@ pub fn shrink(s: &ObjScenario) -> Vec<ObjScenario> {
     }
     // squeeze whitespace runs and simplify number tokens inside lines
     for &(a, b) in &spans {
+        if out.len() >= 400 {
+            break;
+        }
         let line = &s.text[a..b];
         let mut squeezed = Vec::with_capacity(line.len());
         let mut prev_blank = true;
